@@ -343,6 +343,15 @@ fn main() {
     let mut rng = Rng::new(a.seed);
     let thorough = a.tier == "thorough";
     let verif = std::env::var("VERIF_DIR").unwrap_or_else(|_| "/verif".into());
+    // scratch directories of runs whose process no longer exists (killed by a timeout)
+    if let Ok(rd) = std::fs::read_dir(Path::new(&verif).join(".cache")) {
+        for e in rd.filter_map(|e| e.ok()) {
+            let name = e.file_name().to_string_lossy().to_string();
+            if let Some(pid) = name.strip_prefix("scratch-c42-") {
+                if pid.parse::<u32>().is_ok() && !Path::new("/proc").join(pid).exists() { let _ = std::fs::remove_dir_all(e.path()); }
+            }
+        }
+    }
     let root = ScratchDir(Path::new(&verif).join(".cache").join(format!("scratch-c42-{}", std::process::id())));
     let _ = std::fs::remove_dir_all(&root.0);
     std::fs::create_dir_all(&root.0).expect("scratch dir");
